@@ -753,7 +753,7 @@ impl Xot {
                             let uri = parse_attribute(value.as_str().into(), value.start())?;
                             let name_span = Span::from_prefix_name(prefix, local);
                             builder.prefix(local.as_str(), &uri, name_span, self)?;
-                        } else if local.as_str() == "xmlns" {
+                        } else if prefix.is_empty() && local.as_str() == "xmlns" {
                             let uri = parse_attribute(value.as_str().into(), value.start())?;
                             let name_span = Span::from_prefix_name(prefix, local);
                             builder.prefix("", &uri, name_span, self)?;
